@@ -21,8 +21,11 @@ from . import tlaval
 from .tlc import (MachineryError, Scratch, TLCResult, require_ok, run_tlc, write_cfg, write_trace, VERIF,
                   SPEC_DIR)
 
-EVIDENCE_DIR = os.path.join(VERIF, "evidence")
-REPLAY_DIR = os.path.join(VERIF, "replays")
+# Evidence and replay files describe /repo itself.  A developer run against a scratch worktree (VERIF_REPO=...) must not
+# overwrite them: it writes to a scratch directory instead.
+_ALT = os.environ.get("VERIF_REPO", "/repo").rstrip("/") not in ("/repo", "")
+EVIDENCE_DIR = os.path.join(VERIF, "evidence") if not _ALT else os.path.join("/tmp", "cnvkit-verif-alt-evidence")
+REPLAY_DIR = os.path.join(VERIF, "replays") if not _ALT else os.path.join("/tmp", "cnvkit-verif-alt-replays")
 KNOWN_PATH = os.path.join(VERIF, "known_findings.json")
 NCPU = int(os.environ.get("VERIF_WORKERS", "0") or 0) or os.cpu_count() or 4
 
